@@ -142,16 +142,22 @@ def run(ctx):
                 except BaseException as e:  # noqa
                     rfails.append({"input": text, "rule": rule, "context": cname, "diff": "escaped %s" % type(e).__name__})
     # class-only specifiers on every kind of declaration outside a class
+    spec_texts = []
     fn_decls = ["int x;", "void f();", "operator int();", "operator bool() const;", "auto g() -> int;", "template <typename T> T h();",
                 "int k() { return 1; }", "bool operator==(const X& a, const X& b);", "X::X();", "void X::m();", "X::operator int();"]
     for spec in ("virtual", "explicit", "virtual inline", "static virtual", "inline explicit", "friend"):
         for d in fn_decls:
             for cname, tmpl in (("global", "%s"), ("namespace", "namespace n {\n%s\n}"), ("extern block", "extern \"C\" {\n%s\n}"),
-                                ("after class", "struct Q { int q; };\n%s"), ("template", "template <typename U>\n%s")):
-                if cname == "template" and d.startswith("template"):
+                                ("after class", "struct Q { int q; };\n%s"), ("template", "template <typename U>\n%s"),
+                                ("template x2", "template <typename U> template <typename V>\n%s"),
+                                ("template x3", "template <typename U>\ntemplate <typename V> template <int W>\n%s"),
+                                ("template x2 in namespace", "namespace n {\ntemplate <typename U> template <typename V> %s\n}"),
+                                ("template x2 in extern block", "extern \"C\" {\ntemplate <typename U>\ntemplate <typename V>\n%s\n}")):
+                if cname.startswith("template") and d.startswith("template"):
                     continue
                 nr += 1
                 text = tmpl % (spec + " " + d)
+                spec_texts.append(text)
                 try:
                     parse_string(text)
                     rfails.append({"input": text, "rule": "specifier not allowed", "context": cname, "diff": "class-only specifier '%s' outside a class was accepted" % spec})
@@ -196,6 +202,7 @@ def run(ctx):
     ctx.oracle("directive_error_location", nd, dfails)
     ctx.sample({"rule": "mismatched bracket", "context": "class", "input": "struct S {\nint x = (1 ];\n};"})
     sub = [t for t in inputs if len(t) < 400][:: max(1, len(inputs) // ctx.budget(1200, 15000))]
+    sub += spec_texts[:: 1 if ctx.tier == "thorough" or ctx.escalated else 3]
     pcommon.parse_corr(ctx, "parse[outcome]", sub, proj=pcommon.proj_outcome)
 
 
